@@ -448,14 +448,16 @@ theorem malformed_number_rejected (cs : List Nat) (hs : startsNumber cs = true)
 
 example : acceptsNumber [48, 120, 95, 49, 102] = true := by decide          -- 0x_1f
 example : isNumber [48, 120, 95, 49, 102] = true := by decide
-example : acceptsNumber [49, 46, 101] = false ∧ isNumber [49, 46, 101] = false := by decide   -- 1.e
+example : acceptsNumber [49, 46, 101] = false ∧ isNumber [49, 46, 101] = false := by decide   -- 1.e (`1.` then a name)
 
 
 /-- The converse (every Python literal is taken whole) is not proved; it is sampled exhaustively to
-    length 5 by the correspondence stream.  One shape where the lexer takes LESS than Python's longest
-    literal is known (C01's finding `1.else`): after `1.` an `e` is always read as an exponent. -/
-theorem lexer_below_python_witness :
-    lexRest [49, 46, 101, 108, 115, 101] = .error [108, 115, 101] ∧
+    length 5 by the correspondence stream.  The one shape where the lexer used to take LESS than
+    Python's longest literal (C01's finding `1.else`: after `1.` an `e` was always read as an exponent)
+    is repaired in /repo (commit be24063); on the repaired model the literal `1.` is taken whole and
+    `else` is left for the next token. -/
+theorem lexer_float_before_else :
+    lexRest [49, 46, 101, 108, 115, 101] = .ok [101, 108, 115, 101] ∧
     [101, 108, 115, 101] ∈ number [49, 46, 101, 108, 115, 101] := ⟨rfl, by decide⟩
 
 
